@@ -41,6 +41,12 @@ ASSUMPTIONS = [
     "spelling the URL uses (TOFUDatabase.trust / import_toml / first use), so the check does not depend on whether the code treats 'host.' and 'host' as one host",
     "look-alike certificates (same issuer + serial number around another key, same key under another serial number; also one issued by the harness CA) stand in for the "
     "changed certificate and for the impostor behind a dropped connection",
+    "host names are case-insensitive (RFC 3986 3.2.2, DNS): a URL - typed, or the target of a redirect - that writes the letters of a pinned host's name in another "
+    "case (LOCALHOST, Localhost, localhosT) addresses the pinned host; the pin is made under the lower-case name (TOFUDatabase.trust / import_toml / old-schema row / "
+    "the client's own first use through a lower-case URL).  The request line may carry either spelling (the property does not say)",
+    "a second call (get or upload to ANOTHER host:port - never seen, pinned, pinned to another certificate, or with nobody listening) may be in flight on the same "
+    "client object while the call under test is made (asyncio.gather; started just before or 0..3 ms after it): one client object serving several coroutines is the "
+    "ordinary use of a long-lived application, and each connection - also the bystander's - must pass the check against the pin of the host:port IT was made to",
 ]
 LEVEL_TEXT = ("Lean 4 theorems over a hand-written model of the ordered effect trace of GeminiClient._get_single / upload (connect, verify, trust, "
               "send, await, close), for every store, key, presented certificate and payload, lifted to arbitrary histories and redirect chains; the model "
@@ -78,7 +84,70 @@ MODES = ["eager", "lazy", "never"]
 #               object is left while ours is open, then the call is made
 #   host        may also be a further spelling of a name: look-alike names and absolute DNS names with a trailing dot
 #               ("localhost."); pins are made under the spelling the URL uses
+#   hcase       the URL of the call (and, in a chain, the redirect target the first hop sends) writes the LETTERS of the host name in
+#               another case: "upper" LOCALHOST, "title" Localhost, "mixed" lOcAlHoSt, "last" localhosT.  Host names are
+#               case-insensitive, so this is the pinned host; the pin was made under the lower-case name
+#   along       a BYSTANDER call in flight on the same client object while the call under test is made: {"op": get|upload,
+#               "host": name index (its port is the OTHER peer's, or a port nobody listens on), "state": how that host:port is
+#               known to the store - "unpinned" | "pinned" (to the certificate it presents) | "changed" (to another one) | "dead"
+#               (nobody listens), "same_cert": it presents the certificate the target presents, "order": started "before" or
+#               "after" the call under test, "gap": milliseconds between the two starts}
 WARMS = [None, "other-port", "other-host"]
+HCASES = [None, "upper", "title", "mixed", "last"]
+# names with letters: not the IP literals, and not the look-alike with a `%` (not a name of any DNS; urllib keeps the case of whatever
+# follows a `%` in the authority - for a zone id - so that name in another case IS another TOFU key in the code as it stands)
+CASED_HOSTS = [0, 0, 3, 4, 5] + list(range(DOTTED_FIRST, len(HOSTS)))
+ALONG_STATES = ["unpinned", "pinned", "changed", "dead"]
+ALONG_SITS = ("unpinned", "pinned", "changed", "changed-after-ok", "hostile")
+
+
+def recase(name: str, how: str | None) -> str:
+    """another spelling of the same (case-insensitive) host name"""
+    if how == "upper":
+        return name.upper()
+    if how == "title":
+        return name.title()
+    if how == "mixed":
+        return "".join(ch.upper() if i % 2 else ch for i, ch in enumerate(name))
+    if how == "last":
+        i = max((j for j, ch in enumerate(name) if ch.isalpha()), default=None)
+        return name if i is None else name[:i] + name[i].upper() + name[i + 1:]
+    return name
+
+
+class SpellRunner(Runner):
+    """the Runner of C03 whose URLs (request URL, redirect targets) can write the host's letters in another case"""
+    hcase = None
+
+    def url(self, h: int, p: int, path: str) -> str:
+        u = super().url(h, p, path)
+        name = HOSTS[h]
+        if self.hcase and ":" not in name and "%" not in name:
+            u = "gemini://" + recase(name, self.hcase) + u[len("gemini://") + len(name):]
+        return u
+
+
+def along_cert(case) -> int:
+    """the certificate the bystander's peer presents"""
+    return case["cert"] if case["along"].get("same_cert") else other_cert(case["cert"])
+
+
+def along_pin(case):
+    """certificate index the bystander's host:port is pinned to before the calls, or None"""
+    st = case["along"]["state"]
+    if st == "pinned":
+        return along_cert(case)
+    if st == "changed":
+        return other_cert(along_cert(case))
+    return None
+
+
+def along_desc(case) -> str:
+    al = case.get("along")
+    if not al:
+        return ""
+    return f" WHILE a {al['op']} to {HOSTS[al['host']]!r} (other port; {al['state']} there), started {al['gap']} ms {al['order']} it, was in flight on the same client object"
+
 LIVES = [None, "with", "after-with", "reentered", "overlap"]
 TWIN_PARTNER = {a: b for pr in TWIN_PAIRS for a, b in (pr, pr[::-1])}
 SPELLED_HOSTS = [3, 4] + list(range(DOTTED_FIRST, len(HOSTS)))
@@ -116,12 +185,18 @@ def should_fail(case) -> bool:
 class Scenarios(Family):
     realtime = True     # runs on the wall clock (sockets, threads): a failure is re-run once before it counts (core.run_family)
     name = "scenarios"
-    quick_n = 760
+    quick_n = 880
     thorough_n = 4000
     parallel = True      # every process binds its own ports (port 0) in setup()
 
     def setup(self):
-        self.R = Runner()
+        import socket
+
+        self.R = SpellRunner()
+        # a port of this machine nobody listens on (bound, never listening: connecting is refused; kept for the life of the process)
+        self.dead_sock = socket.socket()
+        self.dead_sock.bind(("127.0.0.1", 0))
+        self.dead_port = self.dead_sock.getsockname()[1]
 
     def gen(self, rng: random.Random, n: int):
         thorough = n > self.quick_n
@@ -162,12 +237,26 @@ class Scenarios(Family):
                     d["vssl"] = "flag"                               # the CA-issued certificates do not name these spellings
                     d.pop("cert", None)
                     d["twin"] = False
+            if rng.random() < 0.12:
+                d["hcase"] = rng.choice(HCASES[1:])
+                d["host"] = rng.choice(CASED_HOSTS)
+                if d["host"] != 0 and d["vssl"] in ("env", "ctx"):
+                    d["vssl"] = "flag"                               # the CA-issued certificates do not name these spellings
+                    d.pop("cert", None)
+                    d["twin"] = False
+            if op != "chain" and sit in ALONG_SITS and rng.random() < 0.15:
+                # the bystander has the other port to itself: no redirecting hop, no earlier call there; the store works
+                d["along"] = {"op": rng.choice(["get", "upload"]), "host": rng.randrange(3), "state": rng.choice(ALONG_STATES), "same_cert": rng.random() < 0.5,
+                              "order": rng.choice(["after", "after", "before"]), "gap": rng.choice([0, 0, 1, 3])}
+                d["warm"] = None
+                d["fault"] = None
             return d
 
         def fix(c):
             # a self-signed certificate the parser rejects cannot complete a handshake that verifies the chain
             if c.get("vssl") in ("env", "ctx") and c["situation"] == "hostile":
                 c["situation"] = "patched-raise"
+                c.pop("along", None)                                 # the loader patch is process-wide
             return c
 
         # deterministic witness grid of the further dimensions (shared out over the shards, never cut)
@@ -207,6 +296,19 @@ class Scenarios(Family):
                     if sit == "pinned":
                         w["drop"] = DROPS[1 + len(wit) % 3]
                     wit.append(w)
+            # the host's letters written in another case: the pinned host all the same
+            for hcase in ("upper", "title", "last"):
+                for sit in ("pinned", "changed", "changed-after-ok"):
+                    wit.append({"situation": sit, "op": op, "hcase": hcase, "host": CASED_HOSTS[len(wit) % len(CASED_HOSTS)], "pin_via": PIN_VIAS[len(wit) % len(PIN_VIAS)]})
+        # a second call in flight on the same client object
+        for op in ("getq", "upload", "delete"):
+            for sit in ("changed", "changed-after-ok", "unpinned", "pinned"):
+                for state, order, gap in (("unpinned", "after", 0), ("unpinned", "after", 1), ("unpinned", "before", 0), ("pinned", "after", 0), ("changed", "after", 0),
+                                          ("changed", "before", 0), ("dead", "after", 0), ("dead", "after", 1)):
+                    if sit == "pinned" and (gap or state == "pinned"):
+                        continue
+                    wit.append({"situation": sit, "op": op, "along": {"op": ("get", "upload")[len(wit) % 2], "host": len(wit) % 3, "state": state,
+                                                                      "same_cert": state == "pinned" or len(wit) % 4 == 0, "order": order, "gap": gap}})
         for i, wcase in enumerate(self.share(wit)):
             count += 1
             base = {"tofu": True, "mode": MODES[i % 3], "cert": [0, 1, 2, 4, 5][i % 5], "size": 1000 if wcase["op"] == "upload" else 0,
@@ -390,6 +492,8 @@ class Scenarios(Family):
                     f.write_bytes(tomli_w.dumps({"hosts": {"e0": {"hostname": HOSTS[target[0]], "port": R.ports[target[1]], "fingerprint": R.fps[pin[1]],
                                                                   "first_seen": "2026-01-01T00:00:00+00:00", "last_seen": "2026-01-01T00:00:00+00:00"}}}).encode())
                     assert tdb.import_toml(f) == (1, 0, 0)
+            if case.get("along") and along_pin(case) is not None:
+                tdb.trust(HOSTS[case["along"]["host"]], R.ports[0], R.w["certs"].x509(CERTS[along_pin(case)]))
             client = mk_client()
             if sit == "changed-after-ok":
                 other = other_cert(case["cert"], case.get("twin"))
@@ -447,7 +551,7 @@ class Scenarios(Family):
                 release.set()
                 await asyncio.gather(t, return_exceptions=True)
 
-        async def main_call(client):
+        async def solo_call(client):
             if case["op"] == "chain" and patch:
                 # the loader failure must hit the redirect target only: patch when the second connection is made
                 return await self.chain_with_patch(client, hops, patch, steps_for)
@@ -457,25 +561,85 @@ class Scenarios(Family):
             return await R.call(client, kind, one, content=content_of(case), token=case["token"], query=query, steps_for=steps_for,
                                 extra_scripts=extra_scripts)
 
+        by_box: list = []
+
+        async def bystander(client, al, wait_ms):
+            """the second call on the same client object: to another host:port (the other peer's port, or one nobody listens on)"""
+            if wait_ms is not None:
+                await asyncio.sleep(wait_ms / 1000.0)
+            port = self.dead_port if al["state"] == "dead" else R.ports[0]
+            u = f"gemini://{HOSTS[al['host']]}:{port}/along"
+            try:
+                if al["op"] == "get":
+                    r = await client.get(u + "?by=stander", follow_redirects=False)
+                else:
+                    r = await client.upload(u, b"BYSTANDER-CONTENT", token="by-token")
+                return ["ok", r.status]
+            except Exception as e:  # noqa: BLE001
+                return R.classify(e)
+
+        async def main_call(client):
+            R.hcase = case.get("hcase")
+            try:
+                al = case.get("along")
+                if not al:
+                    return await solo_call(client)
+                if al["state"] != "dead":
+                    R.peers[0].push(CERTS[along_cert(case)], [["read_request", 3.0], ["send", b"20 text/gemini\r\nbystander\n"], ["close"]])
+
+                async def later(ms):
+                    await asyncio.sleep(ms / 1000.0)
+                    return await solo_call(client)
+
+                # gather starts its coroutines in the order given: with a gap of 0 ms the second one starts when the first has reached its first await
+                if al["order"] == "after":
+                    out, by = await asyncio.gather(solo_call(client), bystander(client, al, al["gap"] if al["gap"] else None))
+                else:
+                    by, out = await asyncio.gather(bystander(client, al, None), later(al["gap"]) if al["gap"] else solo_call(client))
+                by_box.append(by)
+                return out
+            finally:
+                R.hcase = None
+
         try:
             res, url = R.run(run())
             logs = R.take_logs()
         finally:
             shutil.rmtree(tmp, ignore_errors=True)
+        out = {}
+        if case.get("along"):
+            # the other peer's port belongs to the bystander alone
+            mine = [e for e in logs if e["port"] == R.ports[0]]
+            logs = [e for e in logs if e["port"] != R.ports[0]]
+            out["along"] = {"result": by_box[0] if by_box else None,
+                            "conns": [{"len": len(e["rx"]), "head": e["rx"][:96].decode("latin-1"), "hs": e["hs"], "cert": e["cert"]} for e in mine]}
+
+        def want_of(j):
+            if j < len(hops) - 1:
+                return (R.url(hops[j][0], hops[j][1], f"/hop{j}") + "\r\n").encode()
+            u = R.url(target[0], target[1], f"/hop{len(hops) - 1}" + (query if len(hops) == 1 else ""))
+            return self.request_bytes(case, u, kind)
+
         peers = []
         for j, e in enumerate(logs):
             if j >= len(hops):
                 # a connection the call had no reason to make: if it carries anything, it would be the target's request again
                 j = len(hops) - 1
-            if j < len(hops) - 1:
-                want = (R.url(hops[j][0], hops[j][1], f"/hop{j}") + "\r\n").encode()
-            else:
-                u = R.url(target[0], target[1], f"/hop{len(hops) - 1}" + (query if len(hops) == 1 else ""))
-                want = self.request_bytes(case, u, kind)
+            want = want_of(j)
             rx = e["rx"]
+            if case.get("hcase"):
+                # the request may name the host as the URL spelled it or in lower case: both are the request, intact
+                R.hcase = case["hcase"]
+                try:
+                    spelled = want_of(j)
+                finally:
+                    R.hcase = None
+                if rx and spelled.startswith(rx) and not want.startswith(rx) or rx == spelled:
+                    want = spelled
             peers.append({"len": len(rx), "equal": rx == want, "prefix": want.startswith(rx), "want_len": len(want),
                           "head": rx[:96].decode("latin-1"), "hs": e["hs"], "cert": e["cert"], "port": R.pid(e["port"])})
-        return {"result": res, "peers": peers}
+        out.update({"result": res, "peers": peers})
+        return out
 
     async def chain_with_patch(self, client, hops, patch, steps_for):
         """redirect chain whose LAST hop's certificate cannot be loaded: switch the loader patch on when the
@@ -568,9 +732,11 @@ class Scenarios(Family):
         if should_fail(case):
             if len(peers) == n_hops and last["len"] > 0:
                 return ("bytes-before-verification",
-                        f"{case['situation']} certificate, {case['op']} to {HOSTS[case['host']]!r} ({case['mode']} peer; pin made via {case.get('pin_via', 'trust')}; verify_ssl=True as well: {case.get('vssl') or 'no'}; "
-                        f"client object held: {case.get('life') or 'bare'}{'; presented ' + cert_desc(case['cert']) if case.get('twin') else ''}): "
-                        f"verification cannot pass, yet the peer got {last['len']} application bytes: {last['head'][:70]!r}")
+                        f"{case['situation']} certificate, {case['op']} to {recase(HOSTS[case['host']], case.get('hcase'))!r}"
+                        f"{' (pinned as ' + repr(HOSTS[case['host']]) + ')' if case.get('hcase') else ''}{along_desc(case)}: "
+                        f"verification cannot pass, yet the peer got {last['len']} application bytes: {last['head'][:70]!r} "
+                        f"({case['mode']} peer; pin made via {case.get('pin_via', 'trust')}; verify_ssl=True as well: {case.get('vssl') or 'no'}; "
+                        f"client object held: {case.get('life') or 'bare'}{'; presented ' + cert_desc(case['cert']) if case.get('twin') else ''})")
             if res[0] == "ok":
                 return ("unverified-peer-answered", f"{case['situation']} certificate: the call returned a response {res}")
         else:
@@ -584,7 +750,31 @@ class Scenarios(Family):
         # a redirect hop: the first peer must only ever see its own request line
         if n_hops == 2 and peers and not peers[0]["equal"] and peers[0]["len"] > 0 and not peers[0]["prefix"]:
             return ("request-garbled", f"hop 0 received something that is not its request: {peers[0]['head'][:70]!r}")
-        return self.oracle_connections(case, obs)
+        return self.oracle_connections(case, obs) or self.oracle_along(case, obs)
+
+    def oracle_along(self, case, obs):
+        """the same statement for the connections of the bystander call: its host:port has its own pin (or none: first use)"""
+        al, a = case.get("along"), obs.get("along")
+        if not al or not a or not case["tofu"]:
+            return None
+        pc = along_pin(case)
+        pin_fp = CERT_FP[pc] if pc is not None else None
+        for idx, p in enumerate(a["conns"]):
+            if p["cert"] not in CERTS or not p["hs"]:
+                continue
+            pres = CERT_FP[CERTS.index(p["cert"])]
+            if pin_fp is None:
+                pin_fp = pres
+                continue
+            if pres != pin_fp and p["len"] > 0:
+                return ("bytes-to-peer-with-other-certificate",
+                        f"two calls in flight on one client object: the {al['op']} to {HOSTS[al['host']]!r} (pinned to fingerprint {pin_fp}; started {al['gap']} ms {al['order']} a "
+                        f"{case['op']} to {HOSTS[case['host']]!r} on another port, {case['situation']} there) was shown certificate {p['cert']!r} (fingerprint {pres}) and its peer "
+                        f"received {p['len']} application bytes beginning {p['head'][:70]!r}; it ended with {a['result']}")
+        if al["state"] == "changed" and a["result"] and a["result"][0] == "ok":
+            return ("unverified-peer-answered", f"two calls in flight on one client object: the {al['op']} to {HOSTS[al['host']]!r}, pinned to another certificate than the one "
+                                                f"presented, returned a response {a['result']}")
+        return None
 
     def oracle_connections(self, case, obs):
         """the property, connection by connection: EVERY connection the call made to the target host:port - also one it
@@ -608,13 +798,14 @@ class Scenarios(Family):
                 continue
             if pres != pin_fp and p["len"] > 0:
                 return ("bytes-to-peer-with-other-certificate",
-                        f"{case['op']} to a host:port whose pin is fingerprint {pin_fp} ({sit}; verify_ssl/CA: {case.get('vssl')}; first connection dropped: {case.get('drop')}; client object used: {case.get('life') or 'bare'}): "
+                        f"{case['op']} to a host:port whose pin is fingerprint {pin_fp}{along_desc(case)} ({sit}; verify_ssl/CA: {case.get('vssl')}; first connection dropped: {case.get('drop')}; client object used: {case.get('life') or 'bare'}): "
                         f"connection {idx + 1} of the call to that port presented certificate {p['cert']!r} (fingerprint {pres}) and received "
                         f"{p['len']} application bytes beginning {p['head'][:70]!r}; the call ended with {obs['result']}")
         return None
 
     def key(self, case, obs):
-        dims = "".join(f" {k}={case[k]}" for k in ("warm", "pin_via", "fault", "vssl", "drop", "twin", "life") if case.get(k) and case.get(k) != "trust") + (" host=dotted" if case["host"] >= DOTTED_FIRST else " host=lookalike" if case["host"] >= 3 else "") + (" chain_same" if case.get("chain_same") and case["op"] == "chain" else "")
+        dims = "".join(f" {k}={case[k]}" for k in ("warm", "pin_via", "fault", "vssl", "drop", "twin", "life", "hcase") if case.get(k) and case.get(k) != "trust") + (" host=dotted" if case["host"] >= DOTTED_FIRST else " host=lookalike" if case["host"] >= 3 else "") + (" chain_same" if case.get("chain_same") and case["op"] == "chain" else "") \
+            + (f" along={case['along']['state']}/{case['along']['order']}" if case.get("along") else "")
         return f"{'on' if case['tofu'] else 'off'} {case['situation']} {case['op']} {case['mode'] if not dims else ''}{dims} -> {obs['result'][0]} rx={[min(p['len'], 1) for p in obs['peers']]}"
 
 
